@@ -50,6 +50,18 @@ Theorem C09_merge_at_block_exit : forall (p : Z) ins ig (c : cfg) o cb (bak : Pr
      (forall nm, ~ In nm (map fst new) -> dget r nm = dget acc nm) -> Q r s' sg') ->
   Wp.wp ins ig (merge_bak c (PBool o cb) bak (map (fun nt => (fst nt, PLC (snd nt))) new) acc) s0 sg0 Q.
 Proof. intros p ins ig c o cb bak s0 sg0 I0 Scb new acc Q. exact (merge_bak_lookup ins ig c o cb bak s0 sg0 I0 Scb new acc Q). Qed.
+(* BranchContext.exit as a whole for an _if block whose variables all existed before the block: the guard state saved on entry is
+   restored, then every variable is merged on the block condition (secret-integer variables; [pre] as in the previous theorem) *)
+Theorem C09_block_exit_restores_and_merges : forall (p : Z), prime p -> forall ins ig (c : cfg) (cx : bctx (p:=p)) o cb (new : list (nat * Sym.slc p))
+  (s : @Gadgets.gst p) sg (Q : Prog.bdict (p:=p) * Prog.bdict (p:=p) -> @Gadgets.gst p -> Sym.store -> Prop),
+  WpBase.Inv ins ig s sg -> tvalid ins ig (borig cx) s sg -> bnodef cx = None -> bk cx = KIf -> bcond cx = PBool o cb -> sc s cb ->
+  NoDup (map fst new) -> Forall (pre ins ig (bbak cx) s sg) new ->
+  (forall r s' sg', WpBase.Inv ins ig s' sg' -> ext sg sg' ->
+     (forall nm t, In (nm, t) new -> exists x f, dget r nm = Some (PLC x) /\ dget (bbak cx) nm = Some (PLC f) /\ sc s' x /\
+        Sym.veval p ins ig sg' (sval x) = sel (Sym.veval p ins ig sg (sval cb)) (Sym.veval p ins ig sg (sval t)) (Sym.veval p ins ig sg (sval f))) ->
+     Q (r, []) s' sg') ->
+  Wp.wp ins ig (ctx_exit c cx (map (fun nt => (fst nt, PLC (snd nt))) new)) s sg Q.
+Proof. intros p Hp ins ig c. exact (ctx_exit_value ins ig c). Qed.
 (* the selection is the native choice on 0/1 conditions *)
 Theorem C09_selection_is_native_choice : forall t f, sel 1 t f = t /\ sel 0 t f = f.
 Proof. intros t f. split; [apply sel_1|apply sel_0]. Qed.
@@ -85,4 +97,5 @@ Proof. vm_compute. split; reflexivity. Qed.
 Print Assumptions C09_oblivious_equals_native.
 Print Assumptions C09_merge_primitive.
 Print Assumptions C09_merge_at_block_exit.
+Print Assumptions C09_block_exit_restores_and_merges.
 Print Assumptions C09_untouched_variables_keep_their_value.
